@@ -330,7 +330,10 @@ func eventListVerifyRule(P *Program, R *Report) {
 		fa := &ForAll{P: P, Spec: ForAllSpec{Coll: is(ev), Exempt: exempt, Body: func(f *ssa.Function, l *Loop) *MustPass {
 			return &MustPass{Match: ck.m}
 		}}}
+		// (both statements are trivial for i = 0 - no parent inside the list, Index == Index + 0 -: a walk from 1 will do)
+		walkStartMax = 1
 		m := fa.inFn(fn, AcceptNilErr(0))
+		walkStartMax = 0
 		R.decide(rule, kELVerify+":"+ck.name, "nil (without the verified memo) => "+ck.what, m.holds, m.detail, P.Pos(fn.Pos()))
 	}
 }
